@@ -282,6 +282,266 @@ pub fn tests(depth: usize) -> Vec<MTest> {
     t
 }
 
+// ---- pairs of adjacent instructions, entered in sequence and through a jump to the second ------
+
+/// One instruction form for the pair matrix, on destination `d` / source `s` with immediate `imm`.
+#[derive(Clone, Copy, Debug, PartialEq, Eq)]
+pub enum Form {
+    AluImm(bool, u8),
+    AluReg(bool, u8),
+    Neg(bool),
+    Swap(bool, i32),
+    LdxSlot(usize),
+    StxSlot(usize),
+    StSlot(usize),
+    /// conditional jump over one instruction that flips bits of `d`
+    JmpImm(bool, u8),
+    JmpReg(bool, u8),
+}
+
+pub fn pair_forms() -> Vec<Form> {
+    let mut f = Vec::new();
+    for is64 in [true, false] {
+        for op in BINARY_ALU_OPS {
+            f.push(Form::AluImm(is64, op));
+            f.push(Form::AluReg(is64, op));
+        }
+        f.push(Form::Neg(is64));
+        for cond in [J_EQ, J_NE, J_GT, J_SGT, J_SET, J_LT] {
+            f.push(Form::JmpImm(is64, cond));
+        }
+        f.push(Form::JmpReg(is64, J_EQ));
+        f.push(Form::JmpReg(is64, J_GT));
+    }
+    for w in [16, 32, 64] {
+        f.push(Form::Swap(false, w));
+        f.push(Form::Swap(true, w));
+    }
+    for w in [4usize, 8] {
+        f.push(Form::LdxSlot(w));
+        f.push(Form::StxSlot(w));
+        f.push(Form::StSlot(w));
+    }
+    f
+}
+
+const SLOT: i16 = -40;
+const FLIP: i32 = 0x5a5a_5a5a;
+
+/// None = the immediate is not valid for this form.
+fn emit_form(out: &mut Vec<Insn>, f: Form, d: u8, s: u8, imm: i32, bare_jump: Option<i16>) -> Option<()> {
+    match f {
+        Form::AluImm(is64, op) => {
+            if matches!(op, ALU_DIV | ALU_MOD) && imm == 0 {
+                return None;
+            }
+            if matches!(op, ALU_LSH | ALU_RSH | ALU_ARSH) && (imm < 0 || imm >= if is64 { 64 } else { 32 }) {
+                return None;
+            }
+            out.push(Insn::new(alu_opc(is64, op, false), d, 0, 0, imm));
+        }
+        Form::AluReg(is64, op) => out.push(Insn::new(alu_opc(is64, op, true), d, s, 0, 0)),
+        Form::Neg(is64) => out.push(Insn::new(if is64 { NEG64 } else { NEG32 }, d, 0, 0, 0)),
+        Form::Swap(be, w) => out.push(Insn::new(if be { BE } else { LE }, d, 0, 0, w)),
+        Form::LdxSlot(w) => out.push(Insn::new(ldx_opc(w), d, 10, SLOT, 0)),
+        Form::StxSlot(w) => out.push(Insn::new(stx_opc(w), 10, d, SLOT, 0)),
+        Form::StSlot(w) => out.push(Insn::new(st_opc(w), 10, 0, SLOT, imm)),
+        // in first position a conditional jump is emitted bare, so that it is physically adjacent to
+        // the second instruction (compare-and-branch fusion, shared flags); when taken it skips the
+        // second instruction - it must not make the second instruction a jump target itself
+        Form::JmpImm(is64, cond) => {
+            out.push(Insn::new(jmp_opc(is64, cond, false), d, 0, bare_jump.unwrap_or(1), imm));
+            if bare_jump.is_none() {
+                out.push(Insn::new(alu_opc(true, ALU_XOR, false), d, 0, 0, FLIP));
+            }
+        }
+        Form::JmpReg(is64, cond) => {
+            out.push(Insn::new(jmp_opc(is64, cond, true), d, s, bare_jump.unwrap_or(1), 0));
+            if bare_jump.is_none() {
+                out.push(Insn::new(alu_opc(true, ALU_XOR, false), d, 0, 0, FLIP));
+            }
+        }
+    }
+    Some(())
+}
+
+#[derive(Clone, Debug)]
+pub struct PTest {
+    /// loads the operands into d and s (the pattern for the stack slot goes through t)
+    pub setup: Vec<Insn>,
+    pub first: Vec<Insn>,
+    pub second: Vec<Insn>,
+    pub d: u8,
+    /// scratch registers that may be clobbered around the pair
+    pub t: u8,
+    pub c: u8,
+    pub alone: bool,
+}
+
+const PAIR_IMMS: [i32; 12] = [32, 1, 8, 16, 24, 31, 0, -1, 0xff, 0xffff, 0x7fff_ffff, 63];
+
+/// All ordered pairs of forms on the same destination register; the first instruction is skipped
+/// when the flag word (stack slot r10-16, copied from the packet's tail at program start) is
+/// non-zero, so that the second one is a jump target reached with the first one not executed.
+pub fn pair_tests(depth: usize) -> Vec<PTest> {
+    let forms = pair_forms();
+    let regsets: [(u8, u8); 3] = [(1, 2), (7, 0), (3, 0)];
+    let mut out = Vec::new();
+    for (ri, (d, s)) in regsets.iter().enumerate() {
+        let rest: Vec<u8> = (0..10u8).filter(|r| r != d && r != s).collect();
+        let (t, c) = (rest[0], rest[1]);
+        for (ai, fa) in forms.iter().enumerate() {
+            for (bi, fb) in forms.iter().enumerate() {
+                let mut imm_pairs: Vec<(i32, i32)> = PAIR_IMMS.iter().map(|i| (*i, *i)).collect();
+                for k in 0..depth {
+                    let h = mix(ai as u64, bi as u64, ri as u64, k as u64);
+                    imm_pairs.push((PAIR_IMMS[h % 12], PAIR_IMMS[(h / 12) % 12]));
+                }
+                for (n, (ia, ib)) in imm_pairs.into_iter().enumerate() {
+                    // forms without an immediate need only one variant per partner immediate
+                    let a_has = matches!(fa, Form::AluImm(..) | Form::StSlot(_) | Form::JmpImm(..));
+                    let b_has = matches!(fb, Form::AluImm(..) | Form::StSlot(_) | Form::JmpImm(..));
+                    if (!a_has && !b_has && n > 0) || (n >= 12 && !(a_has && b_has)) {
+                        continue;
+                    }
+                    let h = mix(ai as u64, bi as u64, n as u64, ri as u64);
+                    let a = if h & 1 == 0 { 0x1122_3344_5566_7788 } else { VALS[(h >> 1) % VALS.len()] };
+                    let b = VALS[(h >> 8) % VALS.len()];
+                    let mut setup = Vec::new();
+                    lddw(&mut setup, *d, a);
+                    lddw(&mut setup, *s, b);
+                    lddw(&mut setup, t, PAT_A);
+                    let mut second = Vec::new();
+                    if emit_form(&mut second, *fb, *d, *s, ib, None).is_none() {
+                        continue;
+                    }
+                    let mut first = Vec::new();
+                    if emit_form(&mut first, *fa, *d, *s, ia, Some(second.len() as i16)).is_none() {
+                        continue;
+                    }
+                    let i2_risky = |f: &Form, imm: i32| matches!(f, Form::JmpImm(true, J_EQ | J_NE | J_GT | J_LT) if imm < 0);
+                    out.push(PTest { setup, first, second, d: *d, t, c, alone: i2_risky(fa, ia) || i2_risky(fb, ib) });
+                }
+            }
+        }
+    }
+    out
+}
+
+pub const PAIR_BATCH: usize = 24;
+
+#[derive(Clone, Copy, Debug, PartialEq, Eq)]
+pub enum Entry {
+    /// first and second instruction executed in sequence
+    Sequence,
+    /// the first one is jumped over: the second one is a jump target
+    Jump,
+    /// the pair lies in a function of its own and a local call enters at the second instruction
+    Call,
+}
+
+pub fn pair_program(tests: &[&PTest], entry: Entry) -> ExecCase {
+    let mut out: Vec<Insn> = Vec::new();
+    let n = tests.len();
+    out.push(Insn::new(stx_opc(8), 10, 1, -8, 0));
+    out.push(Insn::new(ldx_opc(8), 2, 1, (16 * n) as i16, 0));
+    out.push(Insn::new(stx_opc(8), 10, 2, -16, 0));
+    // the callee's frame lies 256 bytes below the caller's
+    let slot = if entry == Entry::Call { SLOT - 256 } else { SLOT };
+    let mut calls: Vec<usize> = Vec::new();
+    for (k, t) in tests.iter().enumerate() {
+        out.extend_from_slice(&t.setup);
+        out.push(Insn::new(stx_opc(8), 10, t.t, slot, 0));
+        if entry == Entry::Call {
+            calls.push(out.len());
+            out.push(Insn::new(CALL, 0, 1, 0, 0));
+        } else {
+            out.push(Insn::new(ldx_opc(8), t.c, 10, -16, 0));
+            out.push(Insn::new(jmp_opc(true, J_NE, false), t.c, 0, t.first.len() as i16, 0));
+            out.extend_from_slice(&t.first);
+            out.extend_from_slice(&t.second);
+        }
+        out.push(Insn::new(ldx_opc(8), t.t, 10, -8, 0));
+        out.push(Insn::new(stx_opc(8), t.t, t.d, (16 * k) as i16, 0));
+        let p = other(&[t.t]);
+        out.push(Insn::new(ldx_opc(8), p, 10, slot, 0));
+        out.push(Insn::new(stx_opc(8), t.t, p, (16 * k + 8) as i16, 0));
+    }
+    out.push(Insn::new(alu_opc(true, ALU_MOV, false), 0, 0, 0, n as i32));
+    out.push(Insn::new(EXIT, 0, 0, 0, 0));
+    if entry == Entry::Call {
+        for (k, t) in tests.iter().enumerate() {
+            out.extend_from_slice(&t.first);
+            let target = out.len();
+            out[calls[k]].imm = (target as i64 - calls[k] as i64 - 1) as i32;
+            out.extend_from_slice(&t.second);
+            out.push(Insn::new(EXIT, 0, 0, 0, 0));
+        }
+    }
+    let mut c = ExecCase::new(VmKind::Raw, encode_prog(&out));
+    c.pkt = vec![0xa5; 16 * n + 8];
+    let flag: u64 = if entry == Entry::Jump { 1 } else { 0 };
+    c.pkt[16 * n..].copy_from_slice(&flag.to_le_bytes());
+    c
+}
+
+/// `with_calls`: also enter the second instruction through a local call (engines that support
+/// eBPF-to-eBPF calls; operands in caller-saved registers only, since r6-r9 are restored on return).
+pub fn run_pairs(ctx: &Ctx, runner: &RefCell<Runner>, depth: usize, with_calls: bool, check: &dyn Fn(&mut Runner, &mut ExecCase) -> Verdict) -> bool {
+    let all = pair_tests(depth);
+    let (alone, batched): (Vec<&PTest>, Vec<&PTest>) = all.iter().partition(|t| t.alone);
+    let mut groups: Vec<Vec<&PTest>> = batched.chunks(PAIR_BATCH).map(|c| c.to_vec()).collect();
+    groups.extend(alone.into_iter().map(|t| vec![t]));
+    for (gi, g) in groups.iter().enumerate() {
+        if gi % ctx.nworkers != ctx.worker {
+            continue;
+        }
+        for entry in [Entry::Sequence, Entry::Jump, Entry::Call] {
+            if entry == Entry::Call && (!with_calls || g.iter().any(|t| t.d > 5)) {
+                continue;
+            }
+            let mut case = pair_program(g, entry);
+            let v = check(&mut runner.borrow_mut(), &mut case);
+            {
+                let mut st = ctx.stats();
+                st.evaluations += g.len() as u64;
+                st.class("pair-matrix:programs");
+                st.class_n(
+                    match entry {
+                        Entry::Sequence => "pair-matrix:in-sequence",
+                        Entry::Jump => "pair-matrix:second-instruction-entered-by-jump",
+                        Entry::Call => "pair-matrix:second-instruction-entered-by-local-call",
+                    },
+                    g.len() as u64,
+                );
+                st.distinct_by_construction += g.len() as u64;
+            }
+            if !matches!(v, Verdict::Fail { .. }) {
+                if ctx.enumerate_case(v, "exec", || case.to_json()) {
+                    return true;
+                }
+                continue;
+            }
+            let mut reported = false;
+            for t in g {
+                let mut single = pair_program(&[*t], entry);
+                let v1 = check(&mut runner.borrow_mut(), &mut single);
+                if matches!(v1, Verdict::Fail { .. }) {
+                    reported = ctx.enumerate_case(v1, "exec", || single.to_json());
+                    break;
+                }
+            }
+            if !reported && ctx.enumerate_case(v, "exec", || case.to_json()) {
+                reported = true;
+            }
+            if reported {
+                return true;
+            }
+        }
+    }
+    false
+}
+
 pub const BATCH: usize = 32;
 /// bytes after the result slots that ldabs / ldind tests read
 const TAIL: usize = 16;
